@@ -70,8 +70,44 @@ func (w *world) isInside(n *Node) bool {
 	return w.realRoot != "" && inside(w.realRoot, w.m.abs(n))
 }
 
+// similar: two component names a reader (or a sloppy comparison) could take
+// for one another: equal up to case folding, or one a prefix of the other.
+func similar(a, b string) bool {
+	return a == b || strings.EqualFold(a, b) || strings.HasPrefix(a, b) || strings.HasPrefix(b, a)
+}
+
+// inSibling reports whether the real path p lies OUTSIDE the resolved root in
+// a look-alike of it: every component of the root path has a similar
+// counterpart in p, at least one differs.  (Classification and failure keys
+// only; inside/outside is decided by inside().)
 func (w *world) inSibling(p string) bool {
-	return inside(w.m.base+"/root-evil", p)
+	if w.realRoot == "" || inside(w.realRoot, p) {
+		return false
+	}
+	r, q := comps(w.realRoot), comps(p)
+	if len(q) < len(r) {
+		return false
+	}
+	for i := range r {
+		if !similar(r[i], q[i]) {
+			return false
+		}
+	}
+	return true
+}
+
+// foldSibling: the look-alike differs from the root by case folding only.
+func (w *world) foldSibling(p string) bool {
+	if !w.inSibling(p) {
+		return false
+	}
+	r, q := comps(w.realRoot), comps(p)
+	for i := range r {
+		if !strings.EqualFold(r[i], q[i]) {
+			return false
+		}
+	}
+	return true
 }
 
 func fileContent(n *Node, mark string, base string) string {
@@ -135,7 +171,8 @@ type verdict struct {
 	allowed map[string]*Node // id -> inside file the location may denote
 	must    *Node            // plain relative location: this file has to be served
 	outside bool             // some reading resolves to an existing path outside the root
-	sibling bool             // ... inside the prefix-sibling
+	sibling bool             // ... inside a look-alike of the root
+	foldSib bool             // ... that differs from the root by letter case / case folding only
 	links   int              // max symbolic links crossed by a reading
 	enoent  bool             // no reading resolves at all
 	notFile bool
@@ -158,6 +195,9 @@ func (w *world) judge(ctxLoc, loc string) verdict {
 			v.outside = true
 			if w.inSibling(r.Path) {
 				v.sibling = true
+			}
+			if w.foldSibling(r.Path) {
+				v.foldSib = true
 			}
 		}
 		if r.Kind != "file" {
@@ -231,6 +271,9 @@ func (w *world) checkCall(e event, ctx *vcommon.Ctx) (*Node, *vcommon.Failure) {
 	if v.sibling {
 		ctx.Class("loc:into-prefix-sibling")
 	}
+	if v.foldSib {
+		ctx.Class("loc:into-casefold-sibling")
+	}
 	if feat != "" && (v.outside || v.sibling) {
 		ctx.Class("op:nontrivial")
 		w.nontrivial = true
@@ -278,6 +321,8 @@ func (w *world) checkCall(e event, ctx *vcommon.Ctx) (*Node, *vcommon.Failure) {
 		switch {
 		case v.links-w.rootLinks > 0:
 			how = "symlink"
+		case w.foldSibling(w.m.abs(n)):
+			how = "casefold-sibling"
 		case w.inSibling(w.m.abs(n)):
 			how = "prefix-sibling"
 		case hasDotDot(e.Loc):
@@ -594,9 +639,6 @@ func checkCase(c Case, ctx *vcommon.Ctx) (fail *vcommon.Failure) {
 	} else if c.Mode != "mapfs" {
 		if r := w.m.resolve(w.cwdReal, rootCfg); r.Links > 0 {
 			ctx.Class("root:is-symlink")
-		}
-		if w.realRoot != base+"/root" {
-			ctx.Class("root:not-the-root-dir")
 		}
 	}
 	if inside(w.realRoot, w.cwdReal) && w.realRoot != "" {
